@@ -53,6 +53,17 @@ CHECKS = {
         design_ref='DESIGN.md §2 C17',
         note='Trusted: the run-length reference for the helix rules and the rule order (per-molecule repeat, single element, total). Node keys increase with insertion order.',
         technique='Hypothesis generated systems vs. reference assignment; exhaustive enumeration of DSSP strings vs. run-length reference'),
+    'C15': dict(
+        category='exploration',
+        text=('Generated molecules (residues x beads on a grid, chains, gaps, cross-links), selectors, domain criteria and parameter '
+              'sets are run through ApplyRubberBand.run_molecule and compared pair by pair with an O(n^2) reference written from the '
+              'statement (own residue graph and BFS, own distances, own decay formula): no bond missing, none extra, exactly one per '
+              'pair, length = distance rounded to 5 decimals, force constant within 1e-9 relative. Upper bound and minimum force are '
+              'constructed on actual pair values x (1 +- 1e-7); exact ties may go either way. A rigidly moved, re-keyed and re-ordered '
+              'presentation must give the same network; NaN coordinates must give one warning and no network.'),
+        design_ref='DESIGN.md §2 C15',
+        note='Trusted: the reference formula min(base, base*exp(-a(d-lower)^p)); fractional powers only with lower = 0; all selected atoms have positions.',
+        technique='Hypothesis generated inputs vs. O(n^2) reference implementation + metamorphic rigid-motion/reordering relation'),
 }
 
 NOT_YET = 'check not built yet in this round (planned, see DESIGN.md §2)'
